@@ -177,12 +177,30 @@ def splice(fn_name, text, overlay, preamble):
     lines = text.split('\n')
     ins_before = {}
     ins_after = {}
+    # names of code locals are captured from the anchors (named groups) and substituted for `§name§` in the overlay text, so
+    # that renaming a local in /repo does not take the contract away
+    names = {}
+    located = []
     for ent in overlay:
         rx = re.compile(ent['anchor'])
-        hits = [k for k, l in enumerate(lines) if rx.search(l)]
+        hits = [(k, rx.search(l)) for k, l in enumerate(lines) if rx.search(l)]
         if len(hits) != 1:
             raise Lost('anchor lost in fn %s: /%s/ matches %d line(s), expected 1' % (fn_name, ent['anchor'], len(hits)))
-        (ins_before if ent['pos'] == 'before' else ins_after).setdefault(hits[0], []).extend(ent['text'])
+        for g, v in hits[0][1].groupdict().items():
+            if v is not None:
+                if names.get(g, v) != v:
+                    raise Lost('anchor lost in fn %s: local `%s` is bound to two different names (%s, %s)' % (fn_name, g, names[g], v))
+                names[g] = v
+        located.append((hits[0][0], ent))
+    def subst(s):
+        for g, v in names.items():
+            s = s.replace('\u00a7%s\u00a7' % g, v)
+        if '\u00a7' in s:
+            raise Lost('internal: overlay placeholder without a capturing anchor in fn %s: %s' % (fn_name, s.strip()[:80]))
+        return s
+    for k, ent in located:
+        (ins_before if ent['pos'] == 'before' else ins_after).setdefault(k, []).extend(subst(x) for x in ent['text'])
+    preamble = [subst(x) for x in preamble]
     # signature end: first line that ends with `{` at depth 0
     depth = 0
     sig_end = None
